@@ -1,4 +1,4 @@
-import Proofs.AppendRefs
+import Proofs.RefsBound
 /-!
 # C04 — every appended entry dominates the log it was appended to
 
@@ -56,5 +56,12 @@ theorem whole_log_in_past {s : Sys} (hr : Reachable s) {r : Nat} {l : Log} (hl :
   have I := (reachable_inv hr).inv r l hl
   obtain ⟨hd, hhd, hdesc⟩ := every_entry_below_some_head I x hx
   exact ⟨hd, hhd, (mem_appendPlan_next I.headsNodup pc).mpr (List.mem_map.mpr ⟨hd, hhd, rfl⟩), hdesc⟩
+
+/-- the skip references are at most logarithmic in the requested pointer count:
+    `⌊log₂ (max pc 1)⌋ + 1` (0 = default pointer count 1; negative counts give no references) -/
+theorem refs_logarithmic {s : Sys} (hr : Reachable s) {r : Nat} {l : Log} (hl : s.logs r = some l)
+    (pc : Int) (h : Hash) (tag : Nat) :
+    (append l pc h tag).1.refs.length ≤ Nat.log2 (max pc 1).toNat + 1 :=
+  appendPlan_refs_length ((reachable_inv hr).inv r l hl) pc
 
 end Model.C04
